@@ -464,7 +464,7 @@ class ModifyCache:
         if table is None:
             return False
 
-        return block in table[func_uuid]
+        return block in table.get(func_uuid, ())
 
 
 @contextlib.contextmanager
